@@ -707,3 +707,36 @@ Qed.
 Theorem chosen_is_first_offer : forall name d, nested_offers name d = false ->
   chosen name d = first_offer name (expand d).
 Proof. intros. rewrite <- findInDir_recursive_exact. apply findInDir_dots_partial. assumption. Qed.
+
+(* ---- the current directory as an element of the search path, lookups by file name ---- *)
+Lemma search_path_some : forall name path i d dots,
+  In (d, dots) path -> scanDir d name dots <> None -> search_path name i path <> None.
+Proof.
+  induction path as [|[d0 dots0] rest IH]; intros i d dots Hin Hs; [destruct Hin|].
+  cbn [search_path]. destruct (scanDir d0 name dots0) eqn:E; [discriminate|].
+  destruct Hin as [Heq|Hin].
+  - inversion Heq; subst. congruence.
+  - eapply IH; eauto.
+Qed.
+
+Lemma has_suffix_app : forall n suf, has_suffix (n ++ suf) suf = true.
+Proof.
+  intros. unfold has_suffix. rewrite rev_app_distr. apply has_prefix_app.
+Qed.
+
+Theorem findFile_file_name_here : forall cwd path name,
+  has_slash name = false -> has_suffix name DOT_YANG = false ->
+  In (Some cwd, false) path ->
+  findFile cwd path name <> Err -> findFile cwd path (name ++ DOT_YANG) <> Err.
+Proof.
+  intros cwd path name Hs Hn Hin H.
+  assert (Hs' : has_slash (name ++ DOT_YANG) = false).
+  { unfold has_slash in *. rewrite existsb_app, Hs. reflexivity. }
+  unfold findFile in *. rewrite Hs in H. rewrite Hs'. rewrite Hn in H. rewrite has_suffix_app.
+  destruct (has_file cwd (name ++ DOT_YANG)); [discriminate|].
+  destruct (findInDir (name ++ DOT_YANG) false cwd) eqn:E.
+  - destruct (search_path (name ++ DOT_YANG) 1 path) eqn:E2; [discriminate|].
+    exfalso. eapply (search_path_some (name ++ DOT_YANG) path 1 (Some cwd) false); eauto.
+    cbn [scanDir]. congruence.
+  - exact H.
+Qed.
